@@ -59,6 +59,12 @@ def weak_models(tier):
     step = 9 if tier == 'quick' else 2
     for n, s in hs[::step]:
         out.append(('weak', 'hier-' + n, s))
+    if tier == 'quick':
+        # a slice of the four-class hierarchies too (an abstract or failing sibling next to two matching ones
+        # needs four classes)
+        h4 = [(n, s) for n, s in catalog.hierarchy_models(4) if len(s['classes']) == 4]
+        for n, s in h4[::41]:
+            out.append(('weak', 'hier-' + n, s))
     from mc.props import C03, C01
     for fam, s in C03.discriminating_models(tier) + C03.enum_union_models():
         out.append(('weak', fam, s))
@@ -104,6 +110,16 @@ def cat(tier):
             c.append(('strong', 'enum', {'classes': catalog.BASE + [en], 'root': t}))
             c.append(('strong', 'enum', {'classes': catalog.BASE + [en, {'name': 'K', 'params': [('e', ('cls', 'En')), ('f', t, None)]}],
                                          'root': ('list', ('cls', 'K'))}))
+        for t in (('union', ['int', ('list', 'int')]), ('union', [('list', 'str'), 'str']), ('union', ['bool', ('dict', 'str', 'int')]),
+                  ('union', ['int', ('list', ('union', ['int', ('list', 'int')]))])):
+            c.append(('strong', 'union-coll', {'classes': catalog.BASE, 'root': t}))
+            c.append(('strong', 'union-coll', {'classes': catalog.BASE + [{'name': 'K', 'params': [('u', t), ('v', 'int', 1)]}],
+                                               'root': ('dict', 'str', ('cls', 'K'))}))
+        for nreq, nopt in ((8, 0), (7, 2), (9, 1), (4, 5)):
+            big = {'name': 'Big', 'params': [('p%d_x' % i, 'int') for i in range(nreq)] + [('o%d' % i, 'str', 'd') for i in range(nopt)]}
+            c.append(('strong', 'many-params', {'classes': catalog.BASE + [big], 'root': ('list', ('cls', 'Big'))}))
+            c.append(('strong', 'many-params', {'classes': catalog.BASE + [big, {'name': 'K', 'params': [('b', ('cls', 'Big')), ('n', 'int', 0)]}],
+                                                'root': ('dict', 'str', ('cls', 'K'))}))
         _CAT[tier] = c + weak_models(tier)
     return _CAT[tier]
 
